@@ -1,6 +1,7 @@
 import ShroudVerif.Model.Decl
 import ShroudVerif.Model.CxxMeaning
 import ShroudVerif.Model.Lexer
+import ShroudVerif.Model.Rewrite
 import ShroudVerif.Gen.DeclTables
 import Driver.Codec
 /-!
@@ -127,6 +128,25 @@ def handleLex (args : List String) : String :=
 def handleParseStr (args : List String) : String :=
   match args.filter (· ≠ "") with
   | [s] => fmtParse env (Shroud.Lexer.checkDecl env (decStr s))
+  | _ => "bad-op"
+
+/-- `rewrite <op> <enc arg> <token>*` -> the parsed declaration after the AST-rewriting operation
+    (`void` = set_return_to_void, `asarg` = _as_arg(arg), `result` = result_as_arg(arg),
+    `settype` = set_type(typemap named arg)), in the format of `parse` -/
+def handleRewrite (args : List String) : String :=
+  match args.filter (· ≠ "") with
+  | op :: a :: toks =>
+    let ts := toks.map (fun a => reclass (decTok a))
+    match parse env ts with
+    | .ok d =>
+      let arg := decStr a
+      (match op with
+       | "void" => fmtParse env d.setReturnToVoid
+       | "asarg" => fmtParse env (d.asArg arg)
+       | "result" => fmtParse env (d.resultAsArg arg)
+       | "settype" => fmtParse env (d.setType env arg)
+       | _ => "bad-op")
+    | _ => "not-ok"
   | _ => "bad-op"
 
 def handleParse (args : List String) : String := handleParseE env args
